@@ -139,29 +139,30 @@ func (t *Transfer) fail(key, f string, a ...any) *Problem {
 // Run performs the writes and reads. It does not close anything.
 func (t *Transfer) Run() *Problem {
 	for wi := range t.Writes {
-		if p := t.writeOne(wi); p != nil {
+		if p := t.WriteOne(wi); p != nil {
 			return p
 		}
 		if t.DrainEach {
-			if p := t.drain(); p != nil {
+			if p := t.Drain(); p != nil {
 				return p
 			}
 		}
 	}
-	return t.drain()
+	return t.Drain()
 }
 
 // WriteAll performs only the writes (the wire-editing harnesses capture them, edit, then read).
 func (t *Transfer) WriteAll() *Problem {
 	for wi := range t.Writes {
-		if p := t.writeOne(wi); p != nil {
+		if p := t.WriteOne(wi); p != nil {
 			return p
 		}
 	}
 	return nil
 }
 
-func (t *Transfer) writeOne(wi int) *Problem {
+// WriteOne performs write number wi of Writes and checks its result.
+func (t *Transfer) WriteOne(wi int) *Problem {
 	w := t.Writes[wi]
 	src := t.Payload[t.Accepted : t.Accepted+w]
 	if cap(t.wscratch) < w {
@@ -187,8 +188,8 @@ func (t *Transfer) writeOne(wi int) *Problem {
 	return nil
 }
 
-// drain reads until everything accepted so far has been received.
-func (t *Transfer) drain() *Problem {
+// Drain reads until everything accepted so far has been received.
+func (t *Transfer) Drain() *Problem {
 	if t.MaxZeroReads == 0 {
 		t.MaxZeroReads = 64
 	}
@@ -229,7 +230,7 @@ func (t *Transfer) ReadOnce() (int, error, *Problem) {
 	if len(t.Buf) < r {
 		t.Buf = make([]byte, r)
 	}
-	buf := t.Buf[:r]
+	buf := t.Buf[:r:r] // cap == len: a reader that writes beyond len(p) panics instead of going unnoticed
 	if t.Before != nil {
 		t.Before(r)
 	}
@@ -297,4 +298,122 @@ func (t *Transfer) AfterClose(maxReads int) (string, *Problem) {
 		}
 	}
 	return "zero-reads", nil
+}
+
+// ---- concurrent transfer ----
+
+// Concurrent is a transfer whose writer runs in its own goroutine while the caller's goroutine reads: for
+// layers with flow control (a stream multiplexer's window), where a large write cannot complete before the
+// reader reads. The reader knows the payload and reads until all of it arrived or Read fails.
+type Concurrent struct {
+	W        io.Writer
+	R        io.Reader
+	Payload  []byte
+	Writes   []int
+	ReadSize func(received int) int
+	Arm      func() // arms the reader's stall deadline (called once before reading)
+	AfterW   func() // called by the writer goroutine after its last write (e.g. CloseWrite)
+	Buf      []byte
+
+	Received int
+	Reads    int
+}
+
+// Run starts the writer, reads everything, joins the writer. done is closed when the writer finished.
+func (c *Concurrent) Run() *Problem {
+	type wres struct {
+		p *Problem
+	}
+	ch := make(chan wres, 1)
+	go func() {
+		off := 0
+		for wi, w := range c.Writes {
+			in := append([]byte(nil), c.Payload[off:off+w]...)
+			n, err := c.W.Write(in)
+			if n < 0 || n > w {
+				ch <- wres{&Problem{Key: "write-count-out-of-range", Desc: fmt.Sprintf("Write #%d of %d bytes returned n=%d", wi, w, n)}}
+				return
+			}
+			if err != nil {
+				ch <- wres{&Problem{Key: "write-failed-on-healthy-conn", Desc: fmt.Sprintf("Write #%d of %d bytes at offset %d returned n=%d err=%v", wi, w, off, n, err)}}
+				return
+			}
+			if n != w {
+				ch <- wres{&Problem{Key: "short-write-without-error", Desc: fmt.Sprintf("Write #%d of %d bytes returned n=%d, err=nil", wi, w, n)}}
+				return
+			}
+			off += n
+		}
+		if c.AfterW != nil {
+			c.AfterW()
+		}
+		ch <- wres{nil}
+	}()
+	var rp *Problem
+	if c.Arm != nil {
+		c.Arm()
+	}
+	zero := 0
+	for c.Received < len(c.Payload) {
+		r := 1
+		if c.ReadSize != nil {
+			r = c.ReadSize(c.Received)
+		}
+		if r < 1 {
+			r = 1
+		}
+		if len(c.Buf) < r {
+			c.Buf = make([]byte, r)
+		}
+		n, err := c.R.Read(c.Buf[:r:r])
+		c.Reads++
+		if n < 0 || n > r {
+			rp = &Problem{Key: "read-count-out-of-range", Desc: fmt.Sprintf("Read(len %d) returned n=%d", r, n)}
+			break
+		}
+		if c.Received+n > len(c.Payload) {
+			rp = &Problem{Key: "received-more-than-written", Desc: fmt.Sprintf("Read returned %d bytes at offset %d of a %d-byte payload", n, c.Received, len(c.Payload))}
+			break
+		}
+		if want := c.Payload[c.Received : c.Received+n]; !bytes.Equal(c.Buf[:n], want) {
+			i := 0
+			for i < n && c.Buf[i] == want[i] {
+				i++
+			}
+			rp = &Problem{Key: "received-bytes-differ", Desc: fmt.Sprintf("Read(len %d)=%d at offset %d: first differing byte at stream offset %d (got %#02x want %#02x)%s",
+				r, n, c.Received, c.Received+i, c.Buf[i], want[i], whereFrom(c.Payload, c.Buf[i:n]))}
+			break
+		}
+		c.Received += n
+		if err != nil {
+			if c.Received < len(c.Payload) {
+				rp = &Problem{Key: "read-error-on-healthy-conn", Desc: fmt.Sprintf("Read returned %v after %d of %d bytes", err, c.Received, len(c.Payload))}
+			}
+			break
+		}
+		if n == 0 {
+			zero++
+			if zero > 64 {
+				rp = &Problem{Key: "reader-makes-no-progress", Desc: fmt.Sprintf("%d consecutive (0, nil) reads at %d of %d bytes", zero, c.Received, len(c.Payload))}
+				break
+			}
+		} else {
+			zero = 0
+		}
+	}
+	if rp != nil {
+		// do not wait for a writer that may be blocked for good; the caller tears the connection down
+		select {
+		case w := <-ch:
+			if w.p != nil {
+				return w.p
+			}
+		default:
+		}
+		return rp
+	}
+	if w := <-ch; w.p != nil {
+		return w.p
+	}
+	return nil
 }
